@@ -143,3 +143,80 @@ Inductive sub {A} : list A -> list A -> Prop :=
 | sub_nil : sub [] []
 | sub_keep x a b : sub a b -> sub (x :: a) (x :: b)
 | sub_skip x a b : sub a b -> sub a (x :: b).
+
+(* ------------------------------------------------------------------------------------------------
+   The websocket-out direction: hub -> local feed client through handleWs' writePump
+   (internal/vw/handleWs.go).  The hub offers every message of the topic to the client's Send channel
+   without waiting (`select { case client.Send <- message: default: }`), writePump receives one message,
+   starts a websocket message with it, then appends the [len(c.Messages.Send)] messages queued at that
+   moment "without delimiter" and closes the websocket message.  What the client receives is therefore a
+   FRAME = a run of hub messages; whether it is a contiguous piece of the stream depends on whether the
+   hub dropped a message between two of its parts.
+   [wcap] is the capacity of Send.  The code as it is uses an UNBUFFERED channel ([wcap = 0]): a hand-off
+   succeeds only while writePump is waiting, and the queue it appends from is always empty.
+   [msg_at k] is the k-th message the hub handles on the topic (all of them slices of their own).
+   Which offers find the writer ready is timing: [WMiss] (not ready / dropped) is part of the schedule. *)
+
+Definition part := (nat * bytes)%type.        (* index of the hub message, its bytes *)
+
+Record wst := mkw {
+  wnext : nat;                      (* index of the next hub message *)
+  wq : list part;                   (* queued in Send, oldest first *)
+  wcur : option (list part);        (* the websocket message writePump is composing *)
+  wframes : list (list part)        (* websocket messages written so far *)
+}.
+
+Inductive wev :=
+| WOffer            (* the hub offers the next message to Send *)
+| WMiss (n : nat)   (* the next n messages are offered while the client cannot take them: dropped *)
+| WFirst            (* writePump receives the oldest queued message and starts a websocket message *)
+| WRest.            (* writePump appends everything queued at this moment and closes the websocket message *)
+
+Definition winit : wst := mkw 0 [] None [].
+
+Section WsOut.
+  Variable msg_at : nat -> bytes.
+  Variable wcap : nat.
+
+  Definition wstep (s : wst) (e : wev) : wst :=
+    match e with
+    | WOffer =>
+        let p := (wnext s, msg_at (wnext s)) in
+        match wcap with
+        | O =>   (* unbuffered: goes straight to a waiting writePump, else dropped *)
+            match wcur s with
+            | None => mkw (S (wnext s)) (wq s) (Some [p]) (wframes s)
+            | Some _ => mkw (S (wnext s)) (wq s) (wcur s) (wframes s)
+            end
+        | S _ =>
+            if length (wq s) <? wcap then mkw (S (wnext s)) (wq s ++ [p]) (wcur s) (wframes s)
+            else mkw (S (wnext s)) (wq s) (wcur s) (wframes s)
+        end
+    | WMiss n => mkw (wnext s + n) (wq s) (wcur s) (wframes s)
+    | WFirst =>
+        match wcur s, wq s with
+        | None, p :: r => mkw (wnext s) r (Some [p]) (wframes s)
+        | _, _ => s
+        end
+    | WRest =>
+        match wcur s with
+        | Some f => mkw (wnext s) [] None (wframes s ++ [f ++ wq s])
+        | None => s
+        end
+    end.
+
+  Definition wrun (evs : list wev) : wst := fold_left wstep evs winit.
+End WsOut.
+
+Definition frame_bytes (f : list part) : bytes := concat (map snd f).
+
+(* every part of the state in stream order: written frames, the one being composed, the queue *)
+Definition wflat (s : wst) : list part :=
+  concat (wframes s) ++ match wcur s with Some f => f | None => [] end ++ wq s.
+
+(* [chain lo l hi]: lo <= l_1 < l_2 < ... < hi *)
+Fixpoint chain (lo : nat) (l : list nat) (hi : nat) : Prop :=
+  match l with
+  | [] => lo <= hi
+  | x :: r => lo <= x /\ chain (S x) r hi
+  end.
